@@ -88,9 +88,7 @@ def _exhaustive(chunk):
                           {"item": repr(item), "only_search": len(s.seen - akeys), "only_enumeration": len(akeys - s.seen)})
         if bool(verdicts) != bool(s.verdicts):
             acc.violation("harness:state-search-and-enumeration-verdicts-disagree", {"item": repr(item)})
-        for sizes, verdict in verdicts:
-            for sig, d in verdict:
-                acc.violation(*W.finish_violation(sig, d, item, n))
+        W.add_violations(acc, verdicts, item, n)
     return acc
 
 
